@@ -126,6 +126,9 @@ pub fn generate(tier: &str, rng: &mut Rng) -> Vec<String> {
         "e2e E STS dcc",
         "e2e L SXS cdcc",
         "e2e E SXTFS dcccc",
+        "e2n L XS cc",
+        "e2n E X c",
+        "e2n E SFXS dccc",
     ] {
         out.push(c.to_string());
     }
@@ -133,7 +136,7 @@ pub fn generate(tier: &str, rng: &mut Rng) -> Vec<String> {
     // ---- unit: exhaustive small scope ----
     // every env over {o,e,p} up to a bound × the disciplined op pattern (poll until not pending,
     // call after each Ready) is covered by `sess`; here ops are arbitrary.
-    let (env_max, ops_max) = if thorough { (6, 5) } else { (4, 4) };
+    let (env_max, ops_max) = if thorough { (7, 6) } else { (5, 5) };
     let envs = all_strings_upto(&['o', 'e', 'p'], env_max);
     let opss = all_strings_upto(&['r', 'c'], ops_max);
     for m in modes {
@@ -151,7 +154,7 @@ pub fn generate(tier: &str, rng: &mut Rng) -> Vec<String> {
         }
     }
     // ---- unit: random long scripts (biased to `o`, with bursts of errors) ----
-    let n = if thorough { 30000 } else { 3000 };
+    let n = if thorough { 60000 } else { 4000 };
     for _ in 0..n {
         let m = *rng.pick(&modes);
         let len = rng.range(0, 24) as usize;
@@ -180,11 +183,11 @@ pub fn generate(tier: &str, rng: &mut Rng) -> Vec<String> {
     }
 
     // ---- sess: exhaustive small scope + random ----
-    let env_max = if thorough { 8 } else { 6 };
+    let env_max = if thorough { 10 } else { 7 };
     for m in modes {
         for env in all_strings_upto(&['o', 'e', 'p'], env_max) {
             // enough calls to consume the whole script
-            let calls = (env.len() / 2 + 1).min(4);
+            let calls = (env.len() / 2 + 1).min(5);
             out.push(format!("sess {} {} {}", m, tok(&env), calls));
         }
     }
@@ -203,7 +206,7 @@ pub fn generate(tier: &str, rng: &mut Rng) -> Vec<String> {
     // ---- e2e: every fault script up to the bound ----
     // ops over {c,d} up to length n; connector outcomes over {F,S}, one per possible attempt
     // (at most #calls + 1 attempts can happen), so no script ever runs past its outcome list.
-    let ops_max = if thorough { 8 } else { 5 };
+    let ops_max = if thorough { 10 } else { 7 };
     for m in modes {
         for ops in all_strings_upto(&['c', 'd'], ops_max) {
             let calls = ops.matches('c').count();
@@ -215,7 +218,7 @@ pub fn generate(tier: &str, rng: &mut Rng) -> Vec<String> {
     }
     // the same with all four ways an attempt can end (refused, served, peer gone before the
     // HTTP/2 handshake, connect timeout), smaller bound
-    let ops_max = if thorough { 5 } else { 3 };
+    let ops_max = if thorough { 6 } else { 4 };
     for m in modes {
         for ops in all_strings_upto(&['c', 'd'], ops_max) {
             let calls = ops.matches('c').count();
@@ -224,6 +227,23 @@ pub fn generate(tier: &str, rng: &mut Rng) -> Vec<String> {
                 if outs.contains('X') || outs.contains('T') {
                     out.push(format!("e2e {} {} {}", m, tok(&outs), tok(&ops)));
                 }
+                // the same script with every attempt answering only after a delay
+                if ops.len() + 1 < ops_max && !outs.is_empty() {
+                    out.push(format!("e2e {} {} {}", m, outs.to_ascii_lowercase(), tok(&ops)));
+                }
+            }
+        }
+    }
+    // the code path without a connect timeout (no TimeoutConnector around the connector);
+    // `T` (an attempt that never ends) is excluded: nothing would ever end it
+    let ops_max = if thorough { 7 } else { 5 };
+    for m in modes {
+        for ops in all_strings_upto(&['c', 'd'], ops_max) {
+            let calls = ops.matches('c').count();
+            let attempts = calls + if m == "E" { 1 } else { 0 };
+            let alpha: &[char] = if ops.len() <= ops_max - 1 { &['F', 'S', 'X'] } else { &['F', 'S'] };
+            for outs in all_strings(alpha, attempts) {
+                out.push(format!("e2n {} {} {}", m, tok(&outs), tok(&ops)));
             }
         }
     }
@@ -244,7 +264,11 @@ pub fn generate(tier: &str, rng: &mut Rng) -> Vec<String> {
             1 => rand_string(rng, &[('F', 2), ('S', 4), ('X', 1), ('T', 1), ('f', 1), ('s', 2), ('x', 1), ('t', 1)], alen),
             _ => rand_string(rng, &[('F', 4), ('S', 1), ('X', 2), ('T', 2), ('s', 1)], alen),
         };
-        out.push(format!("e2e {} {} {}", m, tok(&outs), tok(&ops)));
+        if outs.contains('T') || outs.contains('t') || rng.chance(1, 2) {
+            out.push(format!("e2e {} {} {}", m, tok(&outs), tok(&ops)));
+        } else {
+            out.push(format!("e2n {} {} {}", m, tok(&outs), tok(&ops)));
+        }
     }
     out
 }
@@ -657,7 +681,7 @@ fn attempt_in(text: &str) -> String {
 
 const QUIESCE: Duration = Duration::from_millis(50);
 
-fn run_e2e(lazy: bool, outcomes: &str, ops: &str) -> String {
+fn run_e2e(lazy: bool, outcomes: &str, ops: &str, with_timeout: bool) -> String {
     let rt = paused_rt();
     rt.block_on(async move {
         let world = Arc::new(Mutex::new(World {
@@ -666,8 +690,14 @@ fn run_e2e(lazy: bool, outcomes: &str, ops: &str) -> String {
             cables: Vec::new(),
         }));
         let connector = ScriptConnector(world.clone());
-        let endpoint = tonic::transport::Endpoint::from_static("http://verif.invalid:50051")
-            .connect_timeout(Duration::from_secs(3));
+        let endpoint = tonic::transport::Endpoint::from_static("http://verif.invalid:50051");
+        // with a connect timeout the connector is wrapped in hyper_timeout's TimeoutConnector
+        // (one code path of connect_with_connector[_lazy]); without, it is used directly
+        let endpoint = if with_timeout {
+            endpoint.connect_timeout(Duration::from_secs(3))
+        } else {
+            endpoint
+        };
         let mut out: Vec<String> = Vec::new();
         let attempts = |w: &Arc<Mutex<World>>| w.lock().unwrap().attempts;
         let channel = if lazy {
@@ -767,7 +797,8 @@ pub fn execute(case: &str) -> String {
             Ok(n) => run_sess(*m == "L", env, n),
             Err(_) => "bad-case".into(),
         },
-        ["e2e", m, outs, ops] if *m == "L" || *m == "E" => run_e2e(*m == "L", outs, ops),
+        ["e2e", m, outs, ops] if *m == "L" || *m == "E" => run_e2e(*m == "L", outs, ops, true),
+        ["e2n", m, outs, ops] if *m == "L" || *m == "E" => run_e2e(*m == "L", outs, ops, false),
         _ => "bad-case".into(),
     }
 }
